@@ -7,10 +7,10 @@
 package rnd
 
 import (
-	"errors"
 	cryptRand "crypto/rand"
 	"crypto/sha256"
 	"encoding/binary"
+	"errors"
 	"fmt"
 	"io"
 
